@@ -2,6 +2,7 @@ package c19
 
 import (
 	"fmt"
+	"os"
 	"slices"
 	"time"
 
@@ -195,7 +196,7 @@ func (a *attempt) faultStep(cfg netCfg, done func() bool, cap time.Duration) boo
 	before := a.cl.heights()
 	ph := int(a.cl.rec.phase.Add(1))
 	if debugLogs {
-		fmt.Printf("%s STEP phase=%d heights=%v %s\n", time.Now().Format("05.000"), ph, before, cfg.summary())
+		fmt.Printf("%s STEP phase=%d heights=%v %s\n", time.Now().Format("05.000000"), ph, before, cfg.summary())
 	}
 	a.net.setCfg(cfg)
 	t0 := time.Now()
@@ -346,60 +347,86 @@ func (a *attempt) backlogBurst(r scenRound) {
 	cl := a.cl
 	n := len(cl.nodes)
 	f := (n - 1) / 3
-	lagger := a.sr.Intn(n)
-	k := uint32(2 + a.sr.Intn(4))
-	base := cl.heights()[lagger]
-	// (0) the lagger's inbound link stalls; the others go on until it is k
-	// blocks behind and is the primary of view 1 of the next height (so that a
-	// view change, if it comes to one, has a proposer)
-	c := netCfg{Kind: "backlog-burst", Hold: setOf(n, lagger)}
+	nl := 1 + a.sr.Intn(f) // laggers; with f+1-nl more validators cut the others are one short of M
+	if v := os.Getenv("C19_NL"); v != "" { // experiment knob
+		fmt.Sscan(v, &nl)
+	}
+	laggers := a.sr.Perm(n)[:nl]
+	isLagger := setOf(n, laggers...)
+	k := uint32(2 + a.sr.Intn(2))
+	if v := os.Getenv("C19_K"); v != "" { // experiment knob
+		var kb, kr int
+		fmt.Sscanf(v, "%d,%d", &kb, &kr)
+		k = uint32(kb + a.sr.Intn(max(kr, 1)))
+	}
+	// (0) the laggers' inbound links stall right after a block, so that the
+	// whole consensus traffic of their next height is in the backlog; the
+	// others go on until the laggers are k blocks behind and none of them is
+	// the primary of the next height
+	base := maxU32(cl.heights())
+	for dl := time.Now().Add(20 * blockTime); time.Now().Before(dl); time.Sleep(blockTime / 50) {
+		if h := minU32(cl.heights()); h > base {
+			base = h
+			break
+		}
+	}
+	c := netCfg{Kind: "backlog-burst", Hold: isLagger}
 	var top uint32
 	if !a.faultStep(c, func() bool {
 		top = maxU32(cl.heights())
-		return top >= base+k && int(top)%n == lagger
+		return top >= base+k && !isLagger[int(top+1)%n]
 	}, time.Duration(40+10*n)*blockTime) {
 		a.net.count("backlog_rounds_not_set_up", 1)
 		return
 	}
-	// (1) f validators that are not the next primaries are cut: the open
-	// height now needs the lagger
+	// (1) validators that are neither laggers nor the next primaries are cut:
+	// the open height now needs a lagger. Its proposal and the responses get
+	// through to the laggers, which keep them for later.
 	var cut []int
 	for _, i := range a.sr.Perm(n) {
-		if len(cut) < f && i != lagger && i != int(top+1)%n && i != int(top+2)%n {
+		if len(cut) < f+1-nl && !isLagger[i] && i != int(top+1)%n && i != int(top)%n {
 			cut = append(cut, i)
 		}
 	}
 	c.Cut = setOf(n, cut...)
-	a.faultStep(c, func() bool { return false }, 4*blockTime)
-	behind := maxU32(cl.heights()) - cl.heights()[lagger]
-	// (2) the backlog arrives in one burst; nothing the lagger sends gets
+	if os.Getenv("C19_NOSTAGE") == "" {
+		c.HoldBelow = top + 1
+	}
+	a.faultStep(c, func() bool { return false }, 3*blockTime)
+	hs := cl.heights()
+	behind := maxU32(hs) - hs[laggers[0]]
+	// (2) the backlog arrives in one burst; nothing the laggers send gets
 	// through, and from now on recovery messages are lost
-	c.Hold = nil
-	c.Mute = setOf(n, lagger)
+	c.Hold, c.HoldBelow = nil, 0
+	c.Mute = isLagger
 	c.Rules = []lossRule{{Types: []string{"RecoveryMessage"}, ViewMin: 0, ViewMax: -1, Pct: 100}}
-	open := maxU32(cl.heights()) + 1
+	open := maxU32(hs) + 1
 	a.faultStep(c, func() bool { return false }, 4*blockTime)
 	a.net.count("backlog_rounds", 1)
+	a.net.count("backlog_laggers", int64(nl))
 	a.net.count("backlog_blocks_behind_at_burst", int64(behind))
-	if cl.commitSenders(open, 0) > 0 {
-		a.net.count("backlog_rounds_with_commit_sent_during_the_burst", 1)
-	}
-	// (3) the lagger is heard again. A validator that knows that it committed
+	a.net.count("backlog_laggers_that_committed_during_the_burst", int64(cl.commitSenders(open, 0)))
+	// (3) the laggers are heard again. A validator that knows that it committed
 	// answers its timer with recovery messages only (lost here): nothing can
 	// happen and the step ends early. One that asks for recovery or for a view
 	// change gets the time to carry it through.
 	c.Mute = nil
-	rm0, ask0 := cl.rec.sentOf(lagger, "RecoveryMessage"), cl.rec.sentOf(lagger, "RecoveryRequest", "ChangeView")
+	sent := func(types ...string) (k int64) {
+		for _, l := range laggers {
+			k += cl.rec.sentOf(l, types...)
+		}
+		return
+	}
+	rm0, ask0 := sent("RecoveryMessage"), sent("RecoveryRequest", "ChangeView")
 	t0 := time.Now()
 	a.faultStep(c, func() bool {
 		if maxU32(cl.heights()) >= open {
 			return true
 		}
-		asked := cl.rec.sentOf(lagger, "RecoveryRequest", "ChangeView") > ask0
-		return !asked && time.Since(t0) > 7*blockTime && cl.rec.sentOf(lagger, "RecoveryMessage") > rm0
+		return sent("RecoveryRequest", "ChangeView") == ask0 && time.Since(t0) > 7*blockTime && sent("RecoveryMessage") > rm0
 	}, 30*blockTime)
-	if cl.rec.sentOf(lagger, "RecoveryRequest", "ChangeView") > ask0 {
-		a.net.count("backlog_rounds_lagger_asked_for_recovery_or_view_change", 1)
+	if sent("RecoveryRequest", "ChangeView") > ask0 {
+		a.net.count("backlog_rounds_a_lagger_asked_for_recovery_or_view_change", 1)
 	}
 }
 
